@@ -1,7 +1,7 @@
 """C06 — note-length quantisation.  Deciding oracle: post-contract on the real
 AbsoluteSequence.quantise_note_lengths; driver supplies workloads and checks view agreement."""
 from vmon import gen
-from vmon.checks.common import obs, fail, both_views, random_prefix, apply_prefix
+from vmon.checks.common import obs, fail, both_views, random_prefix, apply_prefix, same_then_edit
 
 PROP = "C06"
 MONITORS = ["qnl"]
@@ -58,8 +58,11 @@ def make_case(rng, i, tier):
     spec = {"notes": notes, "extra": extra, "start": rng.choice(["abs", "rel", "both"])}
     if rng.random() < 0.3:
         spec["pad"] = rng.randrange(0, 220)
-    return {"seq": spec, "values": nv, "dne": rng.random() < 0.5, "style": style,
-            "prefix": random_prefix(rng, n=(1, 3)) if i % 4 == 3 else []}
+    dne = rng.random() < 0.5
+    prefix = []
+    if i % 4 == 3:
+        prefix = same_then_edit(rng, {"op": "qnl", "values": nv, "dne": dne}) if rng.random() < 0.4 else random_prefix(rng, n=(1, 3))
+    return {"seq": spec, "values": nv, "dne": dne, "style": style, "prefix": prefix}
 
 
 def run(case, ctx):
